@@ -5,6 +5,7 @@ import (
 	"encoding/hex"
 	"errors"
 	"fmt"
+	"math"
 	"os"
 	"strconv"
 	"time"
@@ -241,14 +242,42 @@ type CheckPremiumAmount struct {
 	next Action
 }
 
+// validatePremiumAmount rejects premiums for which amount+premium is not a
+// non-negative satoshi amount that can be converted to millisatoshi. Without
+// this check a negative premium below -amount (or a huge positive one) wraps
+// around in GetClaimAmount/GetOpeningTXAmount and the amount checks that
+// follow compare against the wrapped value.
+func validatePremiumAmount(amountSat uint64, premiumSat int64) error {
+	const maxSat = math.MaxUint64 / 1000
+	if amountSat > maxSat {
+		return fmt.Errorf("swap amount out of range: %d", amountSat)
+	}
+	if premiumSat < 0 {
+		if premiumSat == math.MinInt64 || uint64(-premiumSat) > amountSat {
+			return fmt.Errorf("premium %d would make the swap amount %d negative", premiumSat, amountSat)
+		}
+		return nil
+	}
+	if uint64(premiumSat) > maxSat-amountSat {
+		return fmt.Errorf("premium %d is out of range for swap amount %d", premiumSat, amountSat)
+	}
+	return nil
+}
+
 func (v *CheckPremiumAmount) Execute(services *SwapServices, swap *SwapData) EventType {
 	if swap.SwapInAgreement != nil {
+		if err := validatePremiumAmount(swap.SwapInRequest.Amount, swap.SwapInAgreement.Premium); err != nil {
+			return swap.HandleError(err)
+		}
 		if swap.SwapInAgreement.Premium > swap.SwapInRequest.PremiumLimit {
 			return swap.HandleError(fmt.Errorf("premium amt too high: %d, limit : %d",
 				swap.SwapInAgreement.Premium, swap.SwapInRequest.PremiumLimit))
 		}
 		return v.next.Execute(services, swap)
 	} else if swap.SwapOutAgreement != nil {
+		if err := validatePremiumAmount(swap.SwapOutRequest.Amount, swap.SwapOutAgreement.Premium); err != nil {
+			return swap.HandleError(err)
+		}
 		if swap.SwapOutAgreement.Premium > swap.SwapOutRequest.PremiumLimit {
 			return swap.HandleError(fmt.Errorf("premium amt too high: %d, limit : %d",
 				swap.SwapOutAgreement.Premium, swap.SwapOutRequest.PremiumLimit))
